@@ -102,7 +102,7 @@ PROPS["C11"] = {
 }
 PROPS["C13"] = {
     "shards": {"quick": 16, "thorough": 16},
-    "rule": ("37 function classes (lambdas of arity 0-3, optional, rest, failing, closures, named, self- and mutually recursive, curried, built-ins of every arity class, "
+    "rule": ("42 function classes (lambdas of arity 0-3, optional, rest, failing, closures, named, self- and mutually recursive, functions with late-bound names, curried, built-ins of every arity class, "
              "non-function) x random lists of length 0..10: `l via f` vs map, `l where p` vs filter, `x into f` vs f(x), every/some vs conjunction/disjunction, reduce vs a fold "
              "done by the harness with real calls, independent (element, index) expectations, and the hook-H2 call trace (once per element, in order). "
              "non-trivial = the operator form succeeds on a non-empty list"),
@@ -279,6 +279,6 @@ PROPS["C17"] = {
 
 
 # the deciding method of each check, in a few words (MANIFEST `technique`)
-_TECHNIQUE = {'C01': 'runtime monitoring + sanitizers: panic/abort monitor with crash journal over built-ins x boundary pool and sources; CLI and REPL (pty) process monitors; libFuzzer+ASan, Miri and overflow-checks legs (thorough)', 'C02': 'runtime monitoring: differential twin runs (same process, fresh processes), double evaluation and let-abstraction metamorphic oracles, heap-write hook H3', 'C03': 'runtime monitoring: session invariant monitor over environment / heap snapshots and hooks H3, H5 on exhaustive short statement sequences; replay through the real REPL on a pty', 'C04': 'runtime monitoring: call-site metamorphic oracle (result at definition vs every calling context) + reference model of argument binding', 'C05': 'runtime monitoring: differential original vs emitted-and-reloaded function, in process and through CLI pipes', 'C06': 'runtime monitoring: round-trip oracle, offline checker (Python json) over the recorded event log + real CLI -i / stdin', 'C07': 'runtime monitoring: AST oracle parse(format(p)) == parse(p) on exhaustive small shapes and random programs; real wasm driver (hook H6) and blots --format; evaluation equivalence', 'C08': 'runtime monitoring: string oracle format(format(p)) == format(p) on the C07 workload; real wasm driver and blots --format', 'C09': 'runtime monitoring: lexer-level comment-sequence oracle on comment-injected programs; real wasm driver and blots --format', 'C10': 'runtime monitoring: AST oracle (minimal vs fully parenthesised text, exhaustive operator pairs / triples), layout mutator, name generator, whole-program vs per-statement parse', 'C11': 'runtime monitoring: reference model of the scalar operators + element-wise broadcast oracle + aliasing differential', 'C12': 'runtime monitoring: relational-law checker (equivalence, trichotomy, transitivity) over all pairs / triples of a dense value pool', 'C13': 'runtime monitoring: differential of equivalent forms (via/map, where/filter, into/call, every/some, reduce vs harness fold) + call-event log H2', 'C14': 'runtime monitoring: algebraic-law oracles on built-in results over generated lists, strings and records', 'C15': 'runtime monitoring: offline exact-arithmetic checker (fractions.Fraction) over recorded aggregate results', 'C16': 'runtime monitoring: bit-exact round-trip oracle per textual path + offline literal-value checker with big-integer reference', 'C17': 'runtime monitoring: exhaustive unit-table law checker (resolution model, identity, round trip, transitivity, prefix ratios) + built-in vs table differential', 'C18': 'runtime monitoring: process-level monitor of the release CLI (exit status / signal / message) over a recursion grammar; stack measurements through hook H1', 'C19': 'runtime monitoring: process-level oracle (Python model of the CLI contract) over generated scripts x input sets x invocation modes', 'C20': 'runtime monitoring: offline numeral-grammar parser + 15-significant-digit accuracy checker (exact rationals) over recorded display texts'}
+_TECHNIQUE = {'C01': 'runtime monitoring + sanitizers: panic/abort monitor with crash journal over built-ins x boundary pool and sources; CLI and REPL (pty) process monitors; libFuzzer+ASan, Miri and overflow-checks legs (thorough)', 'C02': 'runtime monitoring: differential twin runs (same process, fresh processes), double evaluation and let-abstraction metamorphic oracles, heap-write hook H3', 'C03': 'runtime monitoring: session invariant monitor over environment / heap snapshots and hooks H3, H5 on exhaustive short statement sequences; replay through the real REPL on a pty', 'C04': 'runtime monitoring: call-site metamorphic oracle (result at definition vs every calling context) + reference model of argument binding', 'C05': 'runtime monitoring: differential original vs emitted-and-reloaded function, in process and through CLI pipes', 'C06': 'runtime monitoring: round-trip oracle, offline checker (Python json) over the recorded event log + real CLI -i / stdin', 'C07': 'runtime monitoring: AST oracle parse(format(p)) == parse(p) on exhaustive small shapes and random programs; real wasm driver (hook H6) and blots --format; evaluation equivalence', 'C08': 'runtime monitoring: string oracle format(format(p)) == format(p) on the C07 workload; real wasm driver and blots --format', 'C09': 'runtime monitoring: lexer-level comment-sequence oracle on comment-injected programs; real wasm driver and blots --format', 'C10': 'runtime monitoring: AST oracle (minimal vs fully parenthesised text, exhaustive operator pairs / triples), layout mutator, name generator, whole-program vs per-statement parse', 'C11': 'runtime monitoring: reference model of the scalar operators + element-wise broadcast oracle + aliasing differential', 'C12': 'runtime monitoring: relational-law checker (equivalence, trichotomy, transitivity) over all pairs / triples of a dense value pool', 'C13': 'runtime monitoring: differential of equivalent forms (via/map, where/filter, into/call, every/some, reduce vs harness fold) + call-event log H2', 'C14': 'runtime monitoring: algebraic-law oracles on built-in results over generated lists, strings and records', 'C15': 'runtime monitoring: offline exact-arithmetic checker (fractions.Fraction) over recorded aggregate results', 'C16': 'runtime monitoring: bit-exact round-trip oracle per textual path + offline literal-value checker with big-integer reference', 'C17': 'runtime monitoring: exhaustive unit-table law checker (resolution model, identity, round trip, transitivity, prefix ratios) + built-in vs table differential', 'C18': 'runtime monitoring: process-level monitor of the release CLI (exit status / signal / message) over a recursion grammar; step-budget verdict (hooks H1/H7) on recursion with several recursive calls per level; stack measurements through hook H1', 'C19': 'runtime monitoring: process-level oracle (Python model of the CLI contract) over generated scripts x input sets x invocation modes', 'C20': 'runtime monitoring: offline numeral-grammar parser + 15-significant-digit accuracy checker (exact rationals) over recorded display texts'}
 for _k, _v in _TECHNIQUE.items():
     PROPS[_k]["technique"] = _v
